@@ -625,6 +625,16 @@ pub fn update_msk(
     msk: &mut MasterSecretKey,
     rights: HashMap<Right, (EncryptionHint, AttributeStatus)>,
 ) -> Result<(), Error> {
+    // Validate the request before modifying the MSK: a failed update must not
+    // lose or modify any secret.
+    if rights.iter().any(|(r, (_, status))| {
+        !msk.secrets.contains_key(r) && AttributeStatus::DecryptOnly == *status
+    }) {
+        return Err(Error::OperationNotPermitted(
+            "cannot add decrypt only secret".to_string(),
+        ));
+    }
+
     let mut secrets = take(&mut msk.secrets);
     secrets.retain(|r| rights.contains_key(r));
 
